@@ -27,7 +27,7 @@ TAGS = {"C12"}
 QUICK = [("EOF", False, True, False), ("CPCCA", False, True, False), ("EOF", True, True, True), ("POP", False, True, False)]
 THOROUGH = QUICK + [("MCA", False, True, False), ("EOFstd", False, True, False), ("EOF", False, True, True), ("OPA", False, True, False),
                     ("SparsePCA", False, True, False), ("ExtendedEOF", False, True, False), ("HilbertEOF", False, True, False)]
-DEVS = []
+DEVS = [("CapSingle", "ComputeLoadsInput", (False, True, False))]
 
 
 def cfg(tier):
